@@ -282,6 +282,17 @@ const FRAGS: &[Frag] = &[
     f("active-data-ops", "(type $ada# (array (mut i8)))", "",
       "(data $ad# (i32.const 32) \"active\")
        (func $ad#f (result (ref $ada#)) (memory.init $ad# (i32.const 0) (i32.const 0) (i32.const 0)) (data.drop $ad#) (array.new_data $ada# $ad# (i32.const 0) (i32.const 0)))"),
+    f("element-expressions", "(type $xe#t (func))", "",
+      "(table $xt# 6 funcref) (table $xx# 2 externref) (func $xf#a (type $xe#t)) (func $xf#b (type $xe#t))
+       (elem $x#a (table $xt#) (i32.const 0) funcref (ref.func $xf#a) (ref.null func))
+       (elem $x#b funcref (ref.func $xf#b) (ref.func $xf#a) (ref.null func))
+       (elem $x#c (table $xx#) (i32.const 0) externref (ref.null extern))
+       (elem $x#d (table $xt#) (offset (i32.const 2)) func $xf#a $xf#b)
+       (elem $x#e declare funcref (ref.func $xf#b))
+       (elem $x#f (ref null $xe#t) (ref.func $xf#a) (ref.null $xe#t) (ref.func $xf#b))
+       (elem $x#g externref)
+       (table $xi# 2 (ref null $xe#t) (ref.func $xf#b))
+       (func $x#use (table.init $xt# $x#b (i32.const 0) (i32.const 0) (i32.const 3)) (elem.drop $x#f))"),
     f("start", "", "", "(func $st#) (start $st#)"),
     f("names", "(type $nm#t (func (param $named_param i32) (result i32)))", "",
       "(func $nm#f (type $nm#t) (local $named_local i64) (block $named_label (loop $inner_label (br $named_label))) (local.get 0))
